@@ -471,15 +471,15 @@ def run(ctx):
     # 'K is PSD, M is SPD' on any connected mesh, mirrored parts included: the weighted Jacobian is |det F| element by element
     from . import c08 as _c08
 
-    _c08.measure_rule(ctx)
+    ctx.attempt(_c08.measure_rule, ctx)
     # 'beam mass matrices carry the correct translational mass, rigid-body motions are the kernel': orthonormal member frames
     from . import c10 as _c10
 
-    _c10.stored_frame_rule(ctx)
-    _c10.fibre_derivative_rule(ctx)
+    ctx.attempt(_c10.stored_frame_rule, ctx)
+    ctx.attempt(_c10.fibre_derivative_rule, ctx)
     from ..shared import group_loop_leak_rule as _group_loop_leak_rule
 
-    _group_loop_leak_rule(ctx, "R2.9", scope=lambda f, _s=("EasyFEA.Simulations",): f.module.name.startswith(_s), min_instances=8)
+    ctx.attempt(_group_loop_leak_rule, ctx, "R2.9", scope=lambda f, _s=("EasyFEA.Simulations",): f.module.name.startswith(_s), min_instances=8)
     ctx.level = "other"
     ctx.explanation = (
         "The spectrum of an assembled matrix is a run-time quantity and is NOT decided. Decided statically: (R2.1) each element operator of "
